@@ -338,6 +338,9 @@ func globalsInitOnlyRule(P *Program, R *Report, rule string) {
 			if _, cfg := configGlobals[name]; cfg {
 				return
 			}
+			if ok, _ := synchronised(P, fn, st); ok {
+				return // filled once under sync.Once (a lazily built read-only table), or under a lock
+			}
 			bad[name] = append(bad[name], FuncKey(fn)+" at "+P.Pos(st.Pos()))
 		})
 		// in-place mutation of package-level big.Ints
